@@ -191,7 +191,7 @@ theorem asSingle_inv {fs : List (String × Val)} {a : String} {x : Val} (h : asS
 theorem specPrim_inv {p : Prim} {path : Path} {v : Val} {bs : List Byte} {evs : List SEv}
     (h : specPrim p path v = some (bs, evs)) :
     ∃ x, v = .int p.name x ∧ p.isValid x = true ∧ inRange p.size p.signed x = true ∧
-      bs = intToBytes p.size x ∧ evs = [(p.size, ⟨path, .named p.name false, some x, p.name⟩)] := by
+      bs = intToBytes p.size x ∧ evs = [(p.size, ⟨path, .named p.name false, some x, p.name, p.size⟩)] := by
   unfold specPrim at h
   split at h
   · simp at h
@@ -277,7 +277,7 @@ theorem readPrimList_spec {p : Prim} {path : Path} {n : Nat} {v : Val} {bs : Lis
         obtain ⟨rfl, rfl⟩ := h
         have := repeat_ok (readPrim true p) (specPrim p)
           (fun q v bs evs hq rest pos out scs hr _ => readPrim_spec hq rest pos out scs hr)
-          path vs 0 b e hrep rest pos (out ++ [(pos, .marshal ⟨path, .listOf p.name, none, ""⟩)]) scs hroom hfresh
+          path vs 0 b e hrep rest pos (out ++ [(pos, .marshal ⟨path, .listOf p.name, none, "", 0⟩)]) scs hroom hfresh
         subst hn
         simp only [readPrimList, emitM, emit, this, R.bind_ok, post]
         simp [stamp_cons, stamp]
@@ -315,7 +315,7 @@ theorem fieldWith_ok (d : Path → Option Int → St → R Val) (g : Path → Op
           obtain ⟨rfl, rfl⟩ := h
           have := repeat_ok (fun p s => d p none s) (fun p v => g p none v)
             (fun p v bs evs h rest pos out scs hroom hfresh => hdg p none v bs evs h rest pos out scs hroom hfresh)
-            fpath es 0 bb ee hrep rest pos (out ++ [(pos, .marshal ⟨fpath, .listOf tname, none, ""⟩)]) scs hroom hfresh
+            fpath es 0 bb ee hrep rest pos (out ++ [(pos, .marshal ⟨fpath, .listOf tname, none, "", 0⟩)]) scs hroom hfresh
           subst hc
           simp only [decodeFieldWith, hcount, emitM, emit, this, R.bind_ok, post]
           simp [stamp_cons]
@@ -346,7 +346,7 @@ theorem decode_ok : (t : Ty) → ∀ (path : Path) (sel : Option Int) (v : Val) 
         simp only [hf, Option.map_some, Option.some.injEq, Prod.mk.injEq] at h
         obtain ⟨rfl, rfl⟩ := h
         have := fields_ok fs path [] fvs b e hf rest pos
-          (out ++ [(pos, .marshal ⟨path, .named name false, none, ""⟩)]) scs hroom hfresh
+          (out ++ [(pos, .marshal ⟨path, .named name false, none, "", 0⟩)]) scs hroom hfresh
         simp only [decode, emitM, emit, this, R.bind_ok, post]
         simp [stamp_cons]
   | .tpm2bBytes name szName szP bufName elem, path, sel, v, bs, evs, h, rest, pos, out, scs, hroom, hfresh => by
@@ -465,7 +465,7 @@ theorem decode_ok : (t : Ty) → ∀ (path : Path) (sel : Option Int) (v : Val) 
         simp only [ha, Option.map_some, Option.some.injEq, Prod.mk.injEq] at h
         obtain ⟨rfl, rfl⟩ := h
         have := arm_ok arms name an path v b e ha rest pos
-          (out ++ [(pos, .marshal ⟨path, .named name false, none, ""⟩)]) scs hroom hfresh
+          (out ++ [(pos, .marshal ⟨path, .named name false, none, "", 0⟩)]) scs hroom hfresh
         simp only [decode, emitM, emit, han, this, post]
         simp [stamp_cons]
   | .bad r, path, sel, v, bs, evs, h, rest, pos, out, scs, hroom, hfresh => by
